@@ -42,19 +42,19 @@ Proof. exact sealed_sizes_outside_known. Qed.
 
 (* requests that stay within the current size (and do not ask for truncation / appending) behave exactly
    as without sealing (result and state), on any tree *)
-Theorem C18_within_size_same : forall H no_open fx s r,
+Theorem C18_within_size_same : forall H no_open fx wb s r,
   size_bounded s -> stays_within s r ->
-  step H (mk_cfg true no_open fx) s r = step H (mk_cfg false no_open fx) s r.
+  step H (mk_cfg true no_open fx wb) s r = step H (mk_cfg false no_open fx wb) s r.
 Proof. exact within_size_same. Qed.
 
 (* requests that would change a size are refused with EPERM/EINVAL and change no size, on any tree *)
-Theorem C18_refused : forall H no_open fx s r,
+Theorem C18_refused : forall H no_open fx wb s r,
   would_change s r ->
-  (get_data (mk_cfg true no_open fx) s (match r with Write k _ _ _ _ | Fallocate k _ _ _ _ => k | _ => 0 end)
+  (get_data (mk_cfg true no_open fx wb) s (match r with Write k _ _ _ _ | Fallocate k _ _ _ _ => k | _ => 0 end)
             (match r with Write _ f _ _ _ | Fallocate _ f _ _ _ => f | _ => 0 end) <> None \/
    match r with Setattr _ _ _ => True | _ => False end) ->
-  (fst (step H (mk_cfg true no_open fx) s r) = EPERM \/ fst (step H (mk_cfg true no_open fx) s r) = EINVAL) /\
-  forall f, sizes (snd (step H (mk_cfg true no_open fx) s r)) f = sizes s f.
+  (fst (step H (mk_cfg true no_open fx wb) s r) = EPERM \/ fst (step H (mk_cfg true no_open fx wb) s r) = EINVAL) /\
+  forall f, sizes (snd (step H (mk_cfg true no_open fx wb) s r)) f = sizes s f.
 Proof. exact refused_no_effect. Qed.
 
 (* the concrete linux/ext4 host model used by the tie satisfies the host hypothesis *)
@@ -63,28 +63,28 @@ Proof. exact tie_host_falloc_within. Qed.
 
 (* the three witnesses on the unrepaired model: a 10-byte file ends with 0, 0 and 14 bytes *)
 Example C18_unrepaired_witnesses :
-  sizes (snd (run tie_host (mk_cfg true false no_fixes) w_state [Open 0 0 (N.lor 1 O_TRUNC)])) 0 = 0 /\
-  sizes (snd (run tie_host (mk_cfg true true no_fixes) w_state [Create 0 0 (N.lor 2 O_TRUNC)])) 0 = 0 /\
-  sizes (snd (run tie_host (mk_cfg true false no_fixes) w_state [Open 0 0 2; Write 0 0 0 4 (N.lor 2 O_APPEND)])) 0 = 14.
+  sizes (snd (run tie_host (mk_cfg true false no_fixes false) w_state [Open 0 0 (N.lor 1 O_TRUNC)])) 0 = 0 /\
+  sizes (snd (run tie_host (mk_cfg true true no_fixes false) w_state [Create 0 0 (N.lor 2 O_TRUNC)])) 0 = 0 /\
+  sizes (snd (run tie_host (mk_cfg true false no_fixes false) w_state [Open 0 0 2; Write 0 0 0 4 (N.lor 2 O_APPEND)])) 0 = 14.
 Proof. exact (conj witness_open_trunc (conj witness_create_trunc (proj2 witness_write_append))). Qed.
 
 (* non-vacuity of the partial theorem: a history outside the known class on a satisfiable state, with
    an accepted in-size write, a refused write, a refused fallocate and a refused setattr *)
 Example C18_nonvacuous :
   slots_ok w_state /\
-  forallb (covered (mk_cfg true false all_fixes))
+  forallb (covered (mk_cfg true false all_fixes false))
           [Open 0 0 2; Write 0 0 2 8 2; Write 0 0 8 8 2; Fallocate 0 0 0 0 11; Setattr 0 true 3] = true /\
-  fst (run tie_host (mk_cfg true false all_fixes) w_state
+  fst (run tie_host (mk_cfg true false all_fixes false) w_state
            [Open 0 0 2; Write 0 0 2 8 2; Write 0 0 8 8 2; Fallocate 0 0 0 0 11; Setattr 0 true 3])
   = [0; 0; EPERM; EPERM; EPERM].
 Proof. split; [exact w_state_ok|split; reflexivity]. Qed.
 
 (* on the code as it is the three requests are answered EPERM and nothing changes *)
 Example C18_witnesses :
-  fst (run tie_host (mk_cfg true false all_fixes) w_state
+  fst (run tie_host (mk_cfg true false all_fixes false) w_state
            [Open 0 0 (N.lor 1 O_TRUNC); Create 0 0 (N.lor 2 O_TRUNC); Open 0 0 2; Write 0 0 0 4 (N.lor 2 O_APPEND)])
   = [EPERM; EPERM; 0; EPERM] /\
-  sizes (snd (run tie_host (mk_cfg true false all_fixes) w_state
+  sizes (snd (run tie_host (mk_cfg true false all_fixes false) w_state
            [Open 0 0 (N.lor 1 O_TRUNC); Create 0 0 (N.lor 2 O_TRUNC); Open 0 0 2; Write 0 0 0 4 (N.lor 2 O_APPEND)])) 0 = 10.
 Proof. split; reflexivity. Qed.
 
